@@ -148,7 +148,8 @@ def synth(fname, rnd):
         has_default = par.default is not inspect._empty
         val = None
         if pname in MATRIX_NAMES:
-            val = retype(rnd, matrix(rnd, n, signed, directed, binary, diag))
+            # one call in eight hands a weighted matrix (weights 0.05..1) to a routine documented for binary input
+            val = retype(rnd, matrix(rnd, n, signed, directed, binary and rnd.random() > 0.125, diag))
         elif pname in VECTOR_LABEL_NAMES:
             if has_default and rnd.random() < 0.3:
                 continue
@@ -261,6 +262,7 @@ OVERRIDES = {
     'randomizer_bin_und': lambda r, n: ([(_ring(8, r) != 0).astype(float), 1], {}),
     'null_model_und_sign': lambda r, n: ([matrix(r, n, True, False, False, True, dens=0.8)], {'bin_swaps': 1, 'wei_freq': r.choice((0.3, 1))}),
     'null_model_dir_sign': lambda r, n: ([matrix(r, n, True, True, False, True, dens=0.8)], {'bin_swaps': 1, 'wei_freq': r.choice((0.3, 1))}),
+    'autofix': lambda r, n: ([_dirty(r, n)], {'copy': r.random() < 0.6}),
     'threshold_proportional': lambda r, n: ([np.abs(matrix(r, n, False, r.random() < 0.5, False, True)), r.choice((0.2, 0.5, 1.0))], {'copy': r.random() < 0.5}),
 }
 
@@ -280,6 +282,29 @@ def _reseff(rnd, n):
             except Exception:
                 pass
     return [adj, rnd.choice((0.3, 0.5, 0.9))], kw
+
+
+def _dirty(rnd, n):
+    """what autofix exists for: a matrix with inf / nan entries, a stray diagonal, slight asymmetry"""
+    W = matrix(rnd, n, rnd.random() < 0.3, rnd.random() < 0.3, False, rnd.random() < 0.4)
+    kind = rnd.choice(('posinf', 'posinf', 'neginf', 'bothinf', 'nan', 'naninf', 'clean'))
+    cells = [(rnd.randrange(n), rnd.randrange(n)) for _ in range(rnd.randint(1, 3))]
+    for (a, b) in cells:
+        if a == b:
+            continue
+        if kind == 'posinf':
+            W[a, b] = np.inf
+        elif kind == 'neginf':
+            W[a, b] = -np.inf
+        elif kind == 'bothinf':
+            W[a, b] = np.inf if rnd.random() < 0.5 else -np.inf
+        elif kind == 'nan':
+            W[a, b] = np.nan
+        elif kind == 'naninf':
+            W[a, b] = np.nan if rnd.random() < 0.5 else np.inf
+    if rnd.random() < 0.3:
+        W = 1.0 / np.where(W == 0, 0.0, W) if False else W
+    return W
 
 
 def _distmat(rnd, n):
